@@ -353,6 +353,9 @@ func c16Gen() *rapid.Generator[c16Case] {
 		if rapid.IntRange(0, 15).Draw(t, "emptyDoc") == 0 {
 			c.Doc = []byte(rapid.SampledFrom([]string{"", "\n", "  \n"}).Draw(t, "blank"))
 		}
+		if rapid.IntRange(0, 19).Draw(t, "bom") == 0 {
+			c.Doc = append([]byte("\xef\xbb\xbf"), c.Doc...) // a byte order mark: part of the first row for the library, whatever the input route
+		}
 		if c.Input == "devnull" {
 			c.Doc = nil // nothing can be read from /dev/null: the empty document
 		}
@@ -413,7 +416,7 @@ func c16Gen() *rapid.Generator[c16Case] {
 				c.Args = append(c.Args, "-e", e)
 			}
 			if rapid.IntRange(0, 2).Draw(t, "td") == 0 {
-				c.Target = rapid.SampledFrom([]string{"sub", "./sub/deeper", "."}).Draw(t, "target")
+				c.Target = rapid.SampledFrom([]string{"sub", "./sub/deeper", ".", "~", "~/out", "~x"}).Draw(t, "target")
 				c.Args = append(c.Args, "--target-dir", c.Target)
 			}
 			if rapid.IntRange(0, 4).Draw(t, "preroot") == 0 && c.Target == "" {
@@ -441,7 +444,7 @@ func c16Gen() *rapid.Generator[c16Case] {
 				}
 			}
 			if rapid.IntRange(0, 2).Draw(t, "td") == 0 {
-				c.Target = rapid.SampledFrom([]string{"sub", "./sub/deeper", "no-such-dir"}).Draw(t, "target")
+				c.Target = rapid.SampledFrom([]string{"sub", "./sub/deeper", "no-such-dir", "~/out", "~"}).Draw(t, "target")
 				c.Args = append(c.Args, "--target-dir", c.Target)
 				if c.Target != "no-such-dir" {
 					for i := range c.Pre {
